@@ -34,9 +34,18 @@ def gen_cp(rnd):
     w = rnd.choice([1, 2, 2, 3, 3, 4])
     lo, hi = c10.type_range(w, sg)
     cp = {"width": w, "signed": sg, "ignore": [], "illegal": []}
-    if rnd.random() < 0.3:
+    r0 = rnd.random()
+    if r0 < 0.3:
         its = c10.disjoint_items(rnd, lo, hi, rnd.randint(1, 2))
         (cp["ignore"] if rnd.random() < 0.5 else cp["illegal"]).append(its)
+    elif r0 < 0.45 and hi - lo >= 3:
+        # several dedicated exclusion bins (pairwise disjoint), possibly two or three of the same kind
+        k = rnd.randint(2, 3)
+        its = c10.disjoint_items(rnd, lo, hi, k)
+        kinds = rnd.choice([["ignore"] * 3, ["illegal"] * 3, ["ignore", "illegal", "illegal"], ["illegal", "ignore", "ignore"]])
+        for part, kd in zip(c10.split_items(rnd, its, min(k, len(its))), kinds):
+            if part:
+                cp[kd].append(part)
     r = rnd.random()
     if r < 0.6:
         cp["kind"] = "bins"
